@@ -55,17 +55,12 @@ def main():
         demo_pkgs = sorted({os.path.dirname(d) for d in demos})
 
         def run_demo():
-            res = []
-            for pkg in demo_pkgs:
-                names = "|".join(sorted(set(re.findall(r"^func (Test\w+)\(", open(os.path.join(wt, [d for d in demos if os.path.dirname(d) == pkg][0])).read(), re.M))))
-                moddir = pkg
-                while moddir and not os.path.exists(os.path.join(wt, moddir, "go.mod")):
-                    moddir = os.path.dirname(moddir)
-                rel = "./" + os.path.relpath(pkg, moddir)
-                cmd = f"go test -vet=off -count=1 -run '^({names})$' {rel}"
-                rc, o = sh(cmd, cwd=os.path.join(wt, moddir))
-                res.append((cmd, rc, o[-1500:]))
-            return res
+            # the agent's own demonstration command, re-targeted at the validation worktree
+            cmd = meta.get("demo_cmd", "").replace(src.rstrip("/"), wt)
+            rc, o = sh("export GOPROXY=off GOSUMDB=off GOTOOLCHAIN=local; " + cmd, cwd=wt)
+            if "no tests to run" in o and "--- " not in o and rc == 0:
+                rc, o = 99, o + "\n(seedeval: the demonstration command ran no test)"
+            return [(cmd, rc, o[-1500:])]
 
         r1 = run_demo()
         log["demo_without_patch"] = [dict(cmd=c, exit=rc) for c, rc, _ in r1]
